@@ -72,7 +72,8 @@ Eff(s, i) ==
               One(s, O(<<E("abort", "")>>, <<>>)) \cup One(s, O(Map(SelectSeq(i.ids, LAMBDA a : a \in AL), LAMBDA a : AlRec(s, a)), <<>>))
     [] i.k = "ListEnabled" -> \* S5F7
          One(s, O(Map(SelectSeq(AlOrder, LAMBDA a : s.al[a].en), LAMBDA a : AlRec(s, a)), <<>>))
-    [] i.k = "SetAlarm" ->    \* equipment side: S5F1 iff the state changes and the alarm is enabled at that moment
+    [] i.k = "SetAlarm" ->    \* equipment side: S5F1 iff the state changes and the alarm is enabled at that moment; the alarm
+                              \* is set / cleared on the equipment whether or not the host acknowledges the report
          IF s.al[i.a].set = i.on THEN One(s, O(NoReply, <<>>))
          ELSE One([s EXCEPT !.al[i.a].set = i.on],
                   O(NoReply, IF s.al[i.a].en THEN <<E(i.a, IF i.on THEN "set" ELSE "clear")>> ELSE <<>>))
@@ -92,6 +93,6 @@ Inputs ==
   \cup {[k |-> "AlarmEnable", a |-> a, en |-> b] : a \in ALX, b \in BOOLEAN}
   \cup {[k |-> "ListAlarms", ids |-> q] : q \in IdLists(ALX)}
   \cup {[k |-> "ListEnabled"]} \cup {[k |-> "ReadAlarmSVs"]}
-  \cup {[k |-> "SetAlarm", a |-> a, on |-> b] : a \in AL, b \in BOOLEAN}
+  \cup {[k |-> "SetAlarm", a |-> a, on |-> b, rsp |-> r] : a \in AL, b \in BOOLEAN, r \in BOOLEAN}   \* rsp: the host acknowledges the S5F1 (or never does)
   \cup {[k |-> "UpdateSV", v |-> v, x |-> x] : v \in SV, x \in {0, 1}}
 =============================================================================
